@@ -19,6 +19,7 @@ ASSUMPTIONS = [
     "drop glue drops every by-value field exactly once (language guarantee)",
 ]
 RULES = {
+    "C06.CTOR": "entry point: every operand becomes the child of its own position, converted by into_future / into_stream only; nothing reorders, drops or duplicates operands",
     "C06.LIVE": "premises from the wake protocol, re-checked here for this family: task waker registered first, child polled with its own sub-waker (or the caller's context), no readiness lock across a child poll, a cleared bit is followed by a poll, re-arm after an item, readiness primitives / Wake::wake forward correctly",
     "C06.WIN": "Ready edge => same-call return of that payload, done := true, no further poll; Ready returns only carry polled payloads; Pending only after the full scan",
     "C06.DONE": "the `done` guard is evaluated before any child is polled, and is set when a child wins: the losers are never polled again",
@@ -36,6 +37,8 @@ def run(ctx):
         M = ctx.model(cfg)
         units = families.passthrough_units(M, ("race",))
         c01.live_premises(ctx, M, units, "C06.LIVE")
+        from . import ctors
+        ctors.run_family(ctx, M, units, "C06.CTOR", cfg)
         for u in units:
             rets, claimed = racelike.rule_win(ctx, M, u, "C06.WIN", ("Ready",), "Ready", flag="done")
             loose = [r for r in rets if r[0] not in claimed]
